@@ -105,7 +105,7 @@ class C11(Check):
 
     def arms(self, tier):
         q = tier == "quick"
-        return [("seam", 16), ("basis", 9 * 255 + 2), ("random", 400 if q else 6000), ("double", 66 * (1 if q else 12)), ("history", 300 if q else 5000)]
+        return [("seam", 16), ("basis", 9 * 255 + 2), ("pairs", 256), ("random", 400 if q else 6000), ("double", 66 * (1 if q else 12)), ("history", 300 if q else 5000)]
 
     def generate(self, arm, index, streams, tier):
         w = streams["work"]
@@ -121,6 +121,9 @@ class C11(Check):
                 cls = "zero" if index == 9 * 255 else "ones"
             full = tier == "thorough" or index % 6 == streams.verif_seed % 6 or index >= 9 * 255
             return {"task": "basis", "message": msg.hex(), "mclass": cls, "random_mask": "%06x" % w.getrandbits(24), "singles": full}
+        if arm == "pairs":
+            # every value pair of the two leading message octets (in link control: flags + opcode, feature set id), the other seven seeded
+            return {"task": "pairs", "octet0": index, "seed": w.getrandbits(32), "random_mask": "%06x" % w.getrandbits(24)}
         if arm == "random":
             msg = bytes(w.getrandbits(8) for _ in range(9))
             if w.random() < 0.3:  # messages that make the LFSR feedback symbol hit special values are more interesting than uniform ones
@@ -293,9 +296,45 @@ class C11(Check):
                         inject(msg, mh, w, [p], [v], mclass, mname)
                 res.fault("single_symbol", 12 * 255)
             res["ops"] = 4
+        elif task == "pairs":
+            r = random.Random(case["seed"])
+            o1s = list(range(256)) if "ops" not in case else [o["octet1"] for o in case["ops"]]
+            r.shuffle(o1s)
+            masks = list(MASKS.items()) + [("random", case["random_mask"])]
+            for o1 in o1s:
+                rest = bytes(r.choice([0, 1, 0xFF, r.getrandbits(8), r.getrandbits(8)]) for _ in range(7))
+                if "ops" in case:
+                    rest = bytes.fromhex(next(o["rest"] for o in case["ops"] if o["octet1"] == o1))
+                msg = bytes([case["octet0"], o1]) + rest
+                mname, mh = masks[(o1 + case["octet0"]) % len(masks)]
+                sub_ops = [{"octet1": o1, "rest": rest.hex()}]
+                nv = len(res["viol"])
+                w = clean_checks(msg, mh, "leading-pair", mname)
+                if w is not None:
+                    for p in range(12):  # one corrupted octet at each position
+                        inject(msg, mh, w, [p], [r.randrange(1, 256)], "leading-pair", mname)
+                    res.fault("single_symbol", 12)
+                for v in res["viol"][nv:]:
+                    v["case"] = {"property": "C11", "task": "pairs", "octet0": case["octet0"], "seed": case["seed"], "random_mask": case["random_mask"], "ops": sub_ops,
+                                 "arm": case.get("arm"), "run": case.get("run")}
+            res["cov"].add(f"pairs|{case['octet0'] >> 4}")
+            res["ops"] = len(o1s)
         elif task == "random":
             msg = bytes.fromhex(case["message"])
             r = random.Random(case["seed"])
+            # adversarial CLEAN cases computed with the reference arithmetic: the last three message octets are solved so that the transmitted
+            # parity field (after masking) is all-zero, all-ones, or equal to the mask -- sentinel values a checker might treat specially
+            for mname0, mh0 in list(MASKS.items())[: 2]:
+                for target in (bytes(3), b"\xff" * 3, bytes.fromhex(mh0)):
+                    am = self._message_with_parity_field(msg, bytes.fromhex(mh0), target)
+                    if am is not None:
+                        w0 = clean_checks(am, mh0, "parity-field-sentinel", mname0)
+                        if w0 is not None and w0[9:] != target:
+                            raise AssertionError("harness: solved message does not give the target parity field")
+                        if w0 is not None:
+                            for p in range(12):
+                                inject(am, mh0, w0, [p], [r.randrange(1, 256)], "parity-field-sentinel", mname0)
+                        res.fault("adversarial_clean_message")
             self._linearity(RS, res, fail, msg, bytes.fromhex(case["other"]), "random")
             for mname, mh in list(MASKS.items()) + [("random", case["random_mask"])]:
                 w = clean_checks(msg, mh, "random", mname)
@@ -340,6 +379,28 @@ class C11(Check):
         log.add(0, task, "done", (res["evals"], len(res["viol"])))
         res["digest"] = log.digest()
         return res
+
+    @staticmethod
+    def _message_with_parity_field(msg, mask, target):
+        """msg with its last three octets replaced so that the reference encoder's transmitted parity field (parity xor mask) equals target.
+        The parity is linear in the message: a 3x3 system over GF(2^8) in the three free octets."""
+        base = bytes(msg[:6]) + bytes(3)
+        want = bytes(a ^ b for a, b in zip(C11._ref_codeword(base, mask)[9:], target))  # parity contribution still needed from the free octets
+        cols = [C11._ref_codeword(bytes(6) + bytes([1 if j == i else 0 for j in range(3)]), bytes(3))[9:] for i in range(3)]
+        # solve sum_i x_i * cols[i] = want  (Gaussian elimination over GF(2^8))
+        A = [[cols[i][row] for i in range(3)] + [want[row]] for row in range(3)]
+        for c in range(3):
+            piv = next((rr for rr in range(c, 3) if A[rr][c]), None)
+            if piv is None:
+                return None
+            A[c], A[piv] = A[piv], A[c]
+            inv = ginv(A[c][c])
+            A[c] = [gmul(x, inv) for x in A[c]]
+            for rr in range(3):
+                if rr != c and A[rr][c]:
+                    f = A[rr][c]
+                    A[rr] = [x ^ gmul(f, y) for x, y in zip(A[rr], A[c])]
+        return bytes(msg[:6]) + bytes(A[i][3] for i in range(3))
 
     @staticmethod
     def _ref_codeword(msg, mask):
